@@ -61,6 +61,37 @@ def _d51(ctx: Ctx) -> None:
         env = eval_kernel(repo, k, loop_hook=ls.hook)
         got = env.returned
     except Unsupported as u:
+        # the loop form is not summarised; a transposed closing edge is
+        # still visible in the orientation of the matrix reads: inside the
+        # loop instance[previous, current], after it instance[last, first]
+        from sa.srcmodel import inline_locals as _il
+        loop_ = next((s_ for s_ in ast.walk(k.node) if isinstance(
+            s_, ast.For)), None)
+        xs_ = k.params[1] if len(k.params) > 1 else "x"
+        mat_ = k.params[0]
+        rev_ = None
+        if loop_ is not None and isinstance(loop_.target, ast.Name):
+            cur_ = loop_.target.id
+            carried = {st.targets[0].id for st in loop_.body if isinstance(
+                st, ast.Assign) and isinstance(st.targets[0], ast.Name)
+                and isinstance(st.value, ast.Name) and st.value.id == cur_}
+            inside_ = {id(n_) for n_ in ast.walk(loop_)}
+            for sb in ast.walk(k.node):
+                if isinstance(sb, ast.Subscript) and isinstance(
+                        sb.value, ast.Name) and sb.value.id == mat_ and \
+                        isinstance(sb.slice, ast.Tuple) and len(
+                        sb.slice.elts) == 2 and id(sb) not in inside_:
+                    a_, b_ = sb.slice.elts
+                    a_src = ast.unparse(_il(k.node, a_)).replace(" ", "")
+                    if a_src == f"{xs_}[0]" and isinstance(
+                            b_, ast.Name) and b_.id in carried:
+                        rev_ = sb
+        if rev_ is not None:
+            ctx.ob("D5.1", k, rev_, False,
+                   f"the closing edge is read as `{ast.unparse(rev_)}`: "
+                   "from the first city to the last one - the tour returns "
+                   "from the last city to the first, which is another cell "
+                   "of an asymmetric matrix", construct="closing edge")
         ctx.ob("D5.1", k, u.node or k.node, False,
                f"cannot normalise the kernel: {u}", construct="closed form")
         return
